@@ -16,6 +16,7 @@ TRANSLATORS: dict[str, str] = {
     "GenGraph": "graph",
     "GenLocales": "locales",
     "GenBody": "body",
+    "GenPre": "preproc",
 }
 
 
